@@ -12,11 +12,15 @@ CLAIMED = {
     "C02": (BFS + " with a per-op P&L oracle + exhaustive run family", "Every transition of the bounded op space and every date of every run of the bounded run family is reconciled against a P&L attribution recomputed from executed trades (spy on transact), the driver's own prices, spreads and fee functions.", "Bounds as C01 with the cost alphabet (5 fee families, spreads, custom prices, non-flow adjusts), FI tree F1; run family = menus of all stock algos; trusted: btmc/ledger.py arithmetic.", "DESIGN.md 5 C02"),
     "C03": (BFS + " with the index recurrence after every op; exhaustive run family; scaled-run triples", "The index recurrence is evaluated against the driver's own tally of flows after every single operation of the bounded space and on every date of every run; capital-scale invariance is decided on enumerated triples of runs.", "Reading: the recurrence is the precise half of the statement (DESIGN 5 C03 note). Bounds: flow-heavy alphabet depth 3/4; capital x{1/1000,1,64}.", "DESIGN.md 5 C03"),
     "C05": ("exhaustive Cartesian grid (price x multiplier x position x amount x spread x fee x mode x build) vs brute-force reference", "Every point of the finite grid is executed on the real allocate path (both builds) and compared with the largest affordable quantity found by bisection on the monotone cost; known sizing defects are pinned point-by-point with their exact wrong outcome so any other deviation is reported.", "Grid: 130k points quick / ~2M thorough per build; fee families none/flat/proportional/per-share/max(flat,per-share); points outside the property's fee domain are not judged.", "DESIGN.md 5 C05"),
+    "C06": ("exhaustive sequences (depth 2/3) of (price move | same-bar flow, target vector, cash fraction) on flat and nested trees; RebalanceOverTime schedules", "Every sequence of the bounded step alphabet is executed on the real Rebalance algo so that every rebalance but the first starts from a non-trivial prior portfolio; each targeted child's value is compared with (1-c)*w*base within its own trade costs (+ one unit with integer positions), non-targets must be closed, sub-strategy targets must spread capital by child weight.", "Bounds: 8/7 target vectors x 4 cash fractions x 4 moves, depth 2 (quick) / 3; cost models none/proportional/flat+spread/per-share+spread; sequences ending in bankruptcy or a documented guard are skipped.", "DESIGN.md 5 C06"),
     "C07": (BFS + " with a per-node cash ledger oracle + exhaustive run family", "Per executed trade and per node/date the cash ledger is rebuilt from the spy's trade log and the driver's own fee function and compared with capital, fees, flows and outlays on every transition / date.", "Bounds as C02 incl. 3-level tree T3 with fees; trusted: btmc/ledger.py.", "DESIGN.md 5 C07"),
     "C08": ("deviation-bounded placement: every history x every position x {1,2,3 redundant updates}; every prefix x every (node, public property) as first read", "All placements of redundant updates and of a first read of any public property inside all op histories up to the bound are executed; snapshots, raw state keys, frozen past rows and series ends are compared exactly.", "Bounds: reduced 11-14 op alphabet, prefixes <= 2 (quick) / 3, histories <= 3 / 4, trees T1,T2,T3,F1(,F2).", "DESIGN.md 5 C08"),
     "C10": ("exhaustive run family on both builds + enumerated ill-formed situations", "Every backtest of the bounded family (menus containing every stock algo) must complete with finite series and working reports on py and cy; every situation of each ill-formed class must raise and leave earlier rows untouched.", "Family well-formedness conditions in DESIGN 4; the known sizing-guard failures are pinned by their exact allocate request (known/C10-sizing.txt).", "DESIGN.md 5 C10"),
     "C12": ("exhaustive product: every subset of 8-timestamp windows x 5 schedulers x 8 flag settings x every date, x call-skipping deviations; counters over all parameters; real backtests", "All indices that can be formed from hand-picked boundary windows (ISO week 53/1, New Year, leap day, quarter end, intraday, sparse) are enumerated and each scheduler's answer on each date is compared with plain datetime arithmetic, also when the scheduler is not evaluated on every date.", "First/last date are governed by their flags (pinned test_run_period).", "DESIGN.md 5 C12"),
     "C13": ("exhaustive enumeration of stacks (length <= 4/5, nested one level, Or, Not) against a reference interpreter; truth tables; Strategy.run call logs", "Every stack shape of the bounded family is executed on the real AlgoStack/Or/Not and its call log and result compared with a 12-line interpreter; Require and RunIfOutOfBounds tables and the temp/perm/run-order contract of Strategy.run are enumerated.", "run_always applies to direct members of a stack.", "DESIGN.md 5 C13"),
+    "C14": ("exhaustive product: universes from a cell alphabet x parameters x prior temp, pipelines of <= 3 selection algos, vs set-builder reference", "Every selection algo is executed on a real Strategy for every universe/parameter combination of the bounded family and compared with plain-Python set-builder definitions (ranked selection relationally).", "include_no_data=True with include_negative=False is undefined by the docs and not judged.", "DESIGN.md 5 C14"),
+    "C15": ("exhaustive product: selections x return tables x windows x lags x limits/bounds/targets x live portfolios, vs numpy formulas", "Every weighting algo is executed on a real Strategy over the bounded family and compared with formulas/relations recomputed with numpy only.", "Degenerate windows excluded; ffn's optimisers checked through relations on their output.", "DESIGN.md 5 C15"),
+    "C16": ("exhaustive product: price paths alphabet^n x leverage x tree x schedule x mode, vs reference value path", "All price paths of the bounded alphabet are run through real backtests; flag date, liquidation of the whole tree, terminality and the spy algo's call log are compared with a reference value path rebuilt from recorded rows and input prices; a re-used bankrupt strategy object must start unflagged.", "Bounds: 4^4 paths (quick) / 6^5, 3-4 leverages, flat / nested / levered parent / 3 levels / coupon-paying, integer and fractional, decimal scaling.", "DESIGN.md 5 C16"),
 }
 
 PENDING = "check not built yet in this session (work in progress, see DESIGN.md section 5)"
